@@ -132,9 +132,18 @@ def relevance_stages(constraints, neg):
     stages = []
     if len(inside) < len(constraints):
         stages.append(('subset-vars', inside))
-    touch = [c for c, vs in cv if vs & V]
-    if len(inside) < len(touch) < len(constraints):
-        stages.append(('subset-1hop', touch))
+    prev = len(inside)
+    W = set(V)
+    for hop in (1, 2, 3):
+        touch = [c for c, vs in cv if vs & W]
+        if len(touch) >= len(constraints):
+            break
+        if len(touch) > prev:
+            stages.append((f'subset-{hop}hop', touch))
+            prev = len(touch)
+        for c, vs in cv:
+            if vs & W:
+                W = W | vs
     return stages
 
 
@@ -150,6 +159,110 @@ def _relevance_stage(constraints, neg, budget=3000):
     return None
 
 
+def _numden(t, memo):
+    """z3 real term -> (numerator, denominator) z3 terms without division
+    (denominator None means 1)."""
+    i = t.get_id()
+    if i in memo:
+        return memo[i]
+    out = (t, None)
+    if z3.is_app(t) and not (z3.is_rational_value(t) or z3.is_int_value(t)):
+        k = t.decl().kind()
+        ch = t.children()
+
+        def mul(a, b):
+            if a is None:
+                return b
+            if b is None:
+                return a
+            return a * b
+
+        if k in (z3.Z3_OP_ADD, z3.Z3_OP_SUB):
+            parts = [_numden(x, memo) for x in ch]
+            # common denominator = product of the distinct denominators
+            dens = []
+            for _, d in parts:
+                if d is not None and all(d.get_id() != e.get_id() for e in dens):
+                    dens.append(d)
+            if not dens:
+                out = (t, None)
+            else:
+                den = dens[0]
+                for d in dens[1:]:
+                    den = den * d
+                nums = []
+                for n, d in parts:
+                    f = n
+                    for e in dens:
+                        if d is None or e.get_id() != d.get_id():
+                            f = f * e
+                    nums.append(f)
+                if k == z3.Z3_OP_ADD:
+                    num = nums[0]
+                    for x in nums[1:]:
+                        num = num + x
+                else:
+                    num = nums[0]
+                    for x in nums[1:]:
+                        num = num - x
+                out = (num, den)
+        elif k == z3.Z3_OP_UMINUS:
+            n, d = _numden(ch[0], memo)
+            out = (-n, d)
+        elif k == z3.Z3_OP_MUL:
+            num, den = None, None
+            for x in ch:
+                n, d = _numden(x, memo)
+                num = mul(num, n)
+                den = mul(den, d)
+            out = (num, den)
+        elif k == z3.Z3_OP_DIV:
+            n1, d1 = _numden(ch[0], memo)
+            n2, d2 = _numden(ch[1], memo)
+            out = (mul(n1, d2) if d2 is not None else n1, mul(d1, n2))
+    memo[i] = out
+    return out
+
+
+def _som_stage(constraints, negated_claim, budget_ms=2000):
+    """Equality of rational functions: clear denominators and let z3's rewriter
+    bring the difference to sum-of-monomials normal form.  If it is the zero
+    polynomial and every denominator is provably non-zero under the constraints,
+    the claim holds."""
+    t = negated_claim
+    if not (z3.is_not(t) and z3.is_eq(t.arg(0))):
+        return False
+    a, b = t.arg(0).arg(0), t.arg(0).arg(1)
+    if not z3.is_real(a):
+        return False
+    memo = {}
+    try:
+        na, da = _numden(z3.simplify(a), memo)
+        nb, db = _numden(z3.simplify(b), memo)
+    except RecursionError:
+        return False
+    lhs = na if db is None else na * db
+    rhs = nb if da is None else nb * da
+    diff = z3.simplify(lhs - rhs, som=True, mul_to_power=True, hoist_mul=False)
+    if not (z3.is_rational_value(diff) and diff.numerator_as_long() == 0):
+        return False
+    # all denominators that were cleared must be non-zero
+    dens = {}
+    for n, d in memo.values():
+        if d is not None:
+            dens[d.get_id()] = d
+    for d in dens.values():
+        ds = z3.simplify(d)
+        if z3.is_rational_value(ds) and ds.numerator_as_long() != 0:
+            continue
+        v, _ = _run(_mk_solver, constraints, ds == 0, budget_ms)
+        if v != 'unsat':
+            v2, _ = _run(_nlsat_solver, [c for c in constraints if term_vars(c) <= term_vars(ds)], ds == 0, budget_ms)
+            if v2 != 'unsat':
+                return False
+    return True
+
+
 def check(constraints, negated_claim, timeout_ms, use_cvc5=True):
     """Staged: z3 default (short), nlsat tactic (short), z3 default (full),
     nlsat (full), cvc5.  returns (verdict, model_or_None, seconds, engine)"""
@@ -161,6 +274,11 @@ def check(constraints, negated_claim, timeout_ms, use_cvc5=True):
         st = _relevance_stage(constraints, negated_claim)
         if st:
             return 'unsat', None, time.time() - t0, 'z3-' + st
+    try:
+        if _som_stage(constraints, negated_claim):
+            return 'unsat', None, time.time() - t0, 'z3-som-rewriter'
+    except z3.Z3Exception:
+        pass
     pure = not _has_int_or_uf(constraints, negated_claim)
     stages = [('z3', _mk_solver, min(T, 4000))]
     if pure:
